@@ -250,6 +250,18 @@ def _is_abstract(v) -> bool:
     return type(v).__module__ != 'builtins' or callable(v)
 
 
+def _deep_abstract(v, depth=0) -> bool:
+    if _is_abstract(v):
+        return True
+    if depth > 3:
+        return False
+    if isinstance(v, (list, tuple, set, frozenset)):
+        return any(_deep_abstract(x, depth + 1) for x in v)
+    if isinstance(v, dict):
+        return any(_deep_abstract(x, depth + 1) for x in v.values())
+    return False
+
+
 class Hooks:
     """Override in rules.  Every hook may return NOT_HANDLED."""
 
@@ -1170,7 +1182,7 @@ class Interp:
             name = func.__name__
             mutators = ('append', 'extend', 'insert', 'add', 'update', 'setdefault', 'pop', 'remove',
                         'clear', 'sort', 'reverse', 'discard')
-            if any(_contains_top(a) or _is_abstract(a) for a in args) and name not in mutators:
+            if any(_contains_top(a) or _deep_abstract(a) for a in args) and name not in mutators:
                 if name in ('get',) and isinstance(func.__self__, dict):
                     vals = list(func.__self__.values()) + ([args[1]] if len(args) > 1 else [None])
                     return vals[self.choose(len(vals), node)]
